@@ -293,10 +293,14 @@ def run_deep_values(ctx):
     import jsonpath
 
     def nest(depth, shape):
-        v = ["bottom"]
+        # empty containers at the bottom and next to the spine every 50 levels (a copier may treat "empty" as "nothing to copy")
+        v = ["bottom", [], {}]
         for i in range(depth):
-            v = [v] if shape == "arrays" or (shape == "mixed" and i % 2) else {"k": v}
-        return v
+            if shape == "arrays" or (shape == "mixed" and i % 2):
+                v = [v, []] if i % 50 == 49 else [v]
+            else:
+                v = {"k": v, "e": {}} if i % 50 == 49 else {"k": v}
+        return {"spine": v, "empty_list": [], "empty_object": {}, "list_of_empties": [[], {}]} if shape != "arrays" else [v, [], {}, [[]]]
     for depth in (50, 200, 400, 600, 900, 1500, 3000):
         for shape in ("arrays", "objects", "mixed"):
             for opname in ("add", "replace", "addne", "addap", "copy"):
@@ -307,10 +311,15 @@ def run_deep_values(ctx):
                     if opname == "copy":
                         doc0 = {"x": 1, "src": value}
                         ops = [{"op": "copy", "from": "/src", "path": "/deep"}, {"op": "add", "path": "/deep/extra" if isinstance(value, dict) else "/deep/-", "value": "tag"}]
+                        ops += [{"op": "add", "path": "/deep" + sub, "value": "written-into-an-empty-container"} for sub in (("/empty_list/-", "/list_of_empties/1/n") if isinstance(value, dict) else ("/1/-", "/3/0/-"))]
                     else:
                         doc0 = {"x": 1, "deep": 0}
                         ops = [{"op": opname, "path": "/deep" if opname != "addne" else "/deep2", "value": value}]
-                        ops.append({"op": "add", "path": ("/deep" if opname != "addne" else "/deep2") + ("/extra" if isinstance(value, dict) else "/-"), "value": "tag"})
+                        base_ = "/deep" if opname != "addne" else "/deep2"
+                        ops.append({"op": "add", "path": base_ + ("/extra" if isinstance(value, dict) else "/-"), "value": "tag"})
+                        # later operations write into the EMPTY containers inside the inserted value
+                        for sub in (("/empty_list/-", "/empty_object/new", "/list_of_empties/0/-", "/list_of_empties/1/n") if isinstance(value, dict) else ("/1/-", "/2/new", "/3/0/-")):
+                            ops.append({"op": "add", "path": base_ + sub, "value": "written-into-an-empty-container"})
                     try:
                         patch = jsonpath.JSONPatch(ops) if form == "dicts" else build_chain(ops, jsonpath)
                     except Exception:  # noqa: BLE001
